@@ -51,6 +51,7 @@ class Session:
     def __init__(self, world, device=None, scratch=None):
         self.rt = rtmod.load()
         rtmod.clear_function_caches()
+        rtmod.set_debug_logging(bool(world.get("worklist", {}).get("debug_logging")))
         self.world = world
         self.device = device or world["device"]
         self.geos = [Geo(s) for s in world["labware"]]
